@@ -852,3 +852,23 @@ Proof.
          (mkEntry [107%N] (repeat 120%N 100) 0 0 0 0 0), 1%nat, 100%nat.
   eexists. exists 5%N. split; [reflexivity|]. split; [reflexivity|]. split; vm_compute; reflexivity.
 Qed.
+
+(* finding F18: the hypothesis call_thr_ok is needed.  With ValueThreshold = 0 an entry caches
+   threshold 0 at Set time (estimate key+14); estimateSizeAndSetThreshold treats a cached 0 as "not
+   cached", so sendToWriteCh re-estimates it with the commit-time threshold.  If dynamic
+   thresholding raised the threshold above len(value) in between, the estimate grows to
+   key+8+len(value)+2.  Witness: limits 3/288, Set(190-byte key, 80-byte value) at threshold 0:
+   21+204+10 = 235, accepted; Commit at threshold 121, ts 7: 280 + 22 = 302 >= 288.
+   The marker is covered here (1 digit <= 2 spare bytes), so this is independent of F4. *)
+Definition w18_entry : entry := mkEntry (repeat 107%N 190) (repeat 120%N 80) 0 0 0 0 0.
+Lemma commit_fits_refuted_threshold_moved :
+  exists mts cs thr_c cts,
+    all_accepted (snd (run_calls (db_of_memtable mts) (new_txn false true) cs)) /\
+    (let t := fst (run_calls (db_of_memtable mts) (new_txn false true) cs) in
+     marker_extra cts thr_c <= 2 * Z.of_nat (length (t_pending t) + length (t_dups t))) /\
+    commit (db_of_memtable mts) thr_c false
+           (fst (run_calls (db_of_memtable mts) (new_txn false true) cs)) cts = CErr ErrTxnTooBig.
+Proof.
+  exists 1920, [mkCall 0 w18_entry 190 80], 121, 7%N.
+  split; [vm_compute; repeat constructor|]. split; [vm_compute; discriminate|]. vm_compute. reflexivity.
+Qed.
